@@ -88,6 +88,9 @@ func otherClass(msg string) string {
 // a clash with any OTHER method name is a clash with a name the namespace was meant to protect.
 var reMintedMethod = regexp.MustCompile(`^(InitDefault|CountSetFields.*|BLength|FastRead|FastWrite|FastWriteNocopy|FastAppend|Get_FieldMask|Set_FieldMask|Pass_FieldMask|GetOrSetBase.*|GetFieldDescriptor|GetTypeDescriptor)$`)
 var reClashName = regexp.MustCompile(`same name (\S+)`)
+var reRedeclName = regexp.MustCompile(`^(\S+) redeclared in this block`)
+var reLocalName = regexp.MustCompile(`^[a-z_][A-Za-z0-9_]*$`)
+var reRenamedName = regexp.MustCompile(`^[A-Za-z][A-Za-z0-9]*_+$`)
 
 func classifyCompile(msgs []string) (string, string) {
 	for _, c := range compileClasses {
@@ -96,6 +99,20 @@ func classifyCompile(msgs []string) (string, string) {
 				continue
 			}
 			if c.re.MatchString(stripPos(m)) {
+				if c.class == "redeclared" {
+					// WHAT is declared twice tells root causes apart: a local of a method (parameters are lower-cased,
+					// package-level names of thriftgo are exported or carry a fixed prefix), a name that is itself the
+					// product of collision renaming (plain identifier + trailing underscores), or anything else (the
+					// known family of identifiers minted by templates: A_B, FooPtr, NewXClient …)
+					if nm := reRedeclName.FindStringSubmatch(stripPos(m)); nm != nil {
+						switch {
+						case reLocalName.MatchString(nm[1]) && !strings.HasPrefix(nm[1], "fieldIDToName_") && !strings.HasPrefix(nm[1], "annotations_") && !strings.Contains(nm[1], "Processor"):
+							return "redeclared-param", m
+						case reRenamedName.MatchString(nm[1]):
+							return "redeclared-renamed", m
+						}
+					}
+				}
 				if c.class == "field-method-clash" {
 					if nm := reClashName.FindStringSubmatch(m); nm != nil && !reMintedMethod.MatchString(nm[1]) {
 						return "managed-member-clash", m
